@@ -83,6 +83,7 @@ type Plan struct {
 	QidType    uint8         // Tattach/Tcreate: type bits of the returned qid (Tattach default QTDIR)
 	ReadN      int           // Tread: bytes to return (-1 = count)
 	Twice      bool          // call Respond a second time after answering
+	TwiceFull  bool          // give the whole answer a second time (pack it again, then Respond), as a confused worker would
 	NoAnswer   bool          // return without answering (the harness answers later through Pending)
 	OnFlush    string        // with FlushOp: "cancel" calls req.Flush(), "ignore" does nothing
 	AuthReject string        // AuthCheck: non-empty = reject the attach with this text
@@ -381,6 +382,13 @@ func (o *Ops) finish(req *go9p.SrvReq, conn int, p *Plan, op string, answer func
 	if p.Twice {
 		req.Respond()
 	}
+	if p.TwiceFull {
+		if p.Err != "" {
+			req.RespondError(&go9p.Error{Err: p.Err, Errornum: p.Errnum})
+		} else {
+			answer()
+		}
+	}
 	o.Log.Add(Event{Kind: "exit", Conn: conn, Tag: tag, Op: op})
 }
 
@@ -455,8 +463,9 @@ func (o *Ops) Walk(req *go9p.SrvReq) {
 
 func (o *Ops) Open(req *go9p.SrvReq) {
 	conn, p, ft := o.enter(req, "Open", fmt.Sprintf("mode=%d", req.Tc.Mode))
+	typ := ftype(req.Fid) // (the framework forgets the request's fid once it is answered: a second answer uses the same values)
 	o.finish(req, conn, p, "Open", func() {
-		q := QidFor(ft, ftype(req.Fid))
+		q := QidFor(ft, typ)
 		req.RespondRopen(&q, 0)
 	})
 }
@@ -533,8 +542,9 @@ func StatDir(tok int64, uid int, typ uint8, text string) *go9p.Dir {
 
 func (o *Ops) Stat(req *go9p.SrvReq) {
 	conn, p, ft := o.enter(req, "Stat", "")
+	u, typ := uid(req.Fid), ftype(req.Fid)
 	o.finish(req, conn, p, "Stat", func() {
-		req.RespondRstat(StatDir(ft, uid(req.Fid), ftype(req.Fid), p.Text))
+		req.RespondRstat(StatDir(ft, u, typ, p.Text))
 	})
 }
 
